@@ -1,14 +1,12 @@
-(* GENERATED by harness/consts_c11.py from the staged falcon sources. DO NOT EDIT. *)
-From Coq Require Import NArith ZArith List.
-Import ListNotations.
-Open Scope N_scope.
+(* GENERATION FAILED in harness/consts_c11.py: the staged falcon sources no longer provide a value this
+   table is read from.
+Traceback (most recent call last):
+  File "/verif/harness/gen_consts.py", line 59, in main
+    m.emit(L2.append, nlist, strlit, strlist)
+  File "/verif/harness/consts_c11.py", line 15, in emit
+    A('Definition resolver_cache_size : nat := %d.' % h._resolve.cache_info().maxsize)
+                                                      ^^^^^^^^^^^^^^^^^^^^^
+AttributeError: 'function' object has no attribute 'cache_info'
 
-(* runtime: str.isspace over latin-1 (str.strip) *)
-Definition c11_str_ws : list N := [9; 10; 11; 12; 13; 28; 29; 30; 31; 32; 133; 160].
-(* falcon/constants.py: keys of the default handler mapping, in Handlers.__init__ order *)
-Definition default_handler_keys : list (list N) := [[97; 112; 112; 108; 105; 99; 97; 116; 105; 111; 110; 47; 106; 115; 111; 110]; [109; 117; 108; 116; 105; 112; 97; 114; 116; 47; 102; 111; 114; 109; 45; 100; 97; 116; 97]; [97; 112; 112; 108; 105; 99; 97; 116; 105; 111; 110; 47; 120; 45; 119; 119; 119; 45; 102; 111; 114; 109; 45; 117; 114; 108; 101; 110; 99; 111; 100; 101; 100]].
-Definition media_json : list N := [97; 112; 112; 108; 105; 99; 97; 116; 105; 111; 110; 47; 106; 115; 111; 110].
-(* falcon/media/handlers.py: size of the resolver LRU *)
-Definition resolver_cache_size : nat := 64.
-(* falcon/util/mediatypes.py: _MediaRange._NOT_MATCHING (first four components; the fifth is 0.0) *)
-Definition not_matching4 : list Z := [(-1)%Z; (-1)%Z; (-1)%Z; (-1)%Z].
+*)
+Definition consts_generation_failed_C11 : False := I.
